@@ -8,7 +8,7 @@ and `replace` (and their zip forms) only.  Every stack iterator function *is* th
 vocabulary, and all of `C07Array` applies.  Order: bottom of the stack first. -/
 namespace CC.Properties.C07Stack
 open CC
-open CC.Spec.Seq (IterOp Cursor ZipCursor Out)
+open CC.Spec.Seq (IterOp Cursor ZipCursor Out ZipOp ZOut)
 
 /-- the stack iterator functions are the array iterator functions on the wrapped array -/
 theorem iter_is_array_iter (s t : Stack) (it : ArrIter) (x y : Nat) (m : Mem) :
@@ -62,9 +62,34 @@ theorem zip_replace_sim (s t : Stack) (it : ArrIter) (z : ZipCursor) (x y : Nat)
   ⟨(C09Stack.zip_replace_sim s t it z x y m hs ht h).1, (C09Stack.zip_replace_sim s t it z x y m hs ht h).2.1,
    (C09Stack.zip_replace_sim s t it z x y m hs ht h).2.2.1⟩
 
+/-- **every zip program over two stacks refines the ideal lock-step cursor** (`cc_stack_zip_iter_next`
+and `_replace` are the array functions on the wrapped arrays — `iter_is_array_iter` — so the stack's
+programs are the `next`/`replace` programs among these), for every schedule; both invariants kept,
+ledger balanced, no fault -/
+theorem zip_program_refines (ops : List ZipOp) (s t : Stack) (it : ArrIter) (z : ZipCursor) (m : Mem)
+    (hs : s.Inv) (ht : t.Inv) (h : Arr.ZSim s.v t.v it z) :
+    (Arr.zipRun s.v t.v it ops m).1 = (z.run ops ((Arr.zipRun s.v t.v it ops m).1.map ZOut.blocked)).1 ∧
+    Arr.ZSim (Arr.zipRun s.v t.v it ops m).2.1 (Arr.zipRun s.v t.v it ops m).2.2.1 (Arr.zipRun s.v t.v it ops m).2.2.2.1
+      (z.run ops ((Arr.zipRun s.v t.v it ops m).1.map ZOut.blocked)).2 ∧
+    (Arr.zipRun s.v t.v it ops m).2.1.Inv ∧ (Arr.zipRun s.v t.v it ops m).2.2.1.Inv ∧
+    (Arr.zipRun s.v t.v it ops m).2.2.2.2.live = m.live ∧ (Arr.zipRun s.v t.v it ops m).2.2.2.2.fault = m.fault :=
+  C07Array.zip_program_refines ops s.v t.v it z m hs ht h
+
 /-- the ideal zip cursor stops exactly at the shorter list -/
 theorem spec_zip_stops_at_shorter (z : ZipCursor) : z.next.1 = .iterEnd ↔ (z.todo1 = [] ∨ z.todo2 = []) := by
   unfold ZipCursor.next
   cases h1 : z.todo1 <;> cases h2 : z.todo2 <;> simp
+
+/-! a stack of 3 (bottom first 10, 20, 30) in a block of 4: complete traversal, then a
+next/replace/next program; a zip over stacks of sizes 3 and 2 stops after two pairs -/
+example :
+    let s : Stack := { v := Arr.mk 3 4 [10, 20, 30, 77] (fun c => 2 * c) .conf }
+    let t : Stack := { v := Arr.mk 2 2 [1, 2] (fun c => 2 * c) .conf }
+    s.Inv ∧ t.Inv ∧
+    (s.v.iterRun {} (List.replicate 4 .next) {}).1.map (·.val) = [some 10, some 20, some 30, none] ∧
+    (s.v.iterRun {} [.next, .replace 5, .next] {}).2.1.buf = [5, 20, 30, 77] ∧
+    (Arr.zipRun s.v t.v {} [.next, .next, .next] {}).1.map (·.val) = [some (10, 1), some (20, 2), none] ∧
+    (Arr.zipRun s.v t.v {} [.next, .replace 8 9] {}).2.2.1.abs = [9, 2] := by
+  decide
 
 end CC.Properties.C07Stack
